@@ -155,11 +155,14 @@ def check_cases(cases: list[dict], rep: Report, known: dict) -> None:
                     # later operation on a sharing expression must not disturb), and one that rotates
                     for ptxt in dict.fromkeys([probed.get(j, kept[0][0]), kept[(j + k) % len(kept)][0]]):
                         probe = {"op": "pobj_at", "j": j, "i": i, "p": ptxt, "x": x, "style": (j + k) % 3}
-                        with common.WarnCatcher():
+                        with common.WarnCatcher() as wc:
                             used = hist.do(dict(probe, same=True))
                             fresh = H.fresh_result(texts, probe, hist.pobj_src[j], hist.pobj_expr_called.get(j, False))
                         probed[j] = ptxt
                         rep.evaluations += 1
+                        if wc.count:
+                            rep.skip("budget-warning")     # K4 territory (C09 reports it): which partially reduced form is reached depends on flags
+                            continue
                         if not H.same_result(used, fresh) and "timeout" not in (used[1], fresh[1]):
                             rep.violation(f"persistent {type(hist.pobjs[j]).__name__} {j} ({kind}) evaluates to {used!r} at {ptxt} after operation {k} "
                                           f"({op['op']}) but a freshly built one to {fresh!r}", dict(info, probe=probe))
